@@ -33,6 +33,8 @@ func (s *Server) Listen(req *signaling.ListenRequest, strm signaling.SRPCSignali
 		tkr.broadcast()
 	}
 	listenNonce := tkr.listenNonce
+	// Mark the listener as attached so the tracker is kept while we are listening.
+	tkr.listening = true
 	s.mtx.Unlock()
 
 	// Cleanup when we exit
